@@ -19,7 +19,9 @@ CONSTANTS Procs,     \* scheduler processes
           Jobs,      \* jobs (= token file names)
           StrictEvents, \* TRUE: a file-system event / a notification is handled only if one is pending (model checking);
                         \* FALSE: they may be handled at any time (trace validation: the log says when)
-          FixF5      \* TRUE: an unparsable (half written) token file does not kill the observer / the recount
+          FixF5,     \* TRUE: an unparsable (half written) token file does not kill the observer / the recount
+          AddFirst   \* TRUE: a dependency is registered with the token before its first check (what aio_submit does);
+                     \* FALSE: the other order, in which a release that falls between the two is lost
 
 VARIABLE wl          \* the workload, fixed by Init: [owner: job -> process that submits it, req: job -> amount, total]
 Owner == wl.owner
@@ -33,7 +35,7 @@ VARIABLES files,     \* job -> "absent" | "empty" | "written"
           avail, cache,          \* in-memory view of each process
           watching,  \* process -> jobs for which a reclaim thread exists
           pend,      \* process -> set of <<kind, job>> file-system events not yet handled
-          jobst,     \* job -> "idle" | "submitted" | "holding" | "running" | "ended" | "released"
+          jobst,     \* job -> "idle" | "registered" / "checked" (between the two steps of a submission) | "submitted" | "holding" | "running" | "ended" | "released"
           dstat,     \* job -> "WAIT" | "OK"  (what its scheduler believes)
           reclaiming, \* process -> jobs whose reclaim thread has decided to delete the token file
           notify     \* process -> jobs whose dependency is about to be re-checked (aio_notify closures)
@@ -66,6 +68,18 @@ Status(p, j) == IF Req[j] <= avail[p] THEN "OK" ELSE "WAIT"
 Submit(j) ==
   /\ alive[Owner[j]] /\ jobst[j] = "idle"
   /\ jobst' = [jobst EXCEPT ![j] = "submitted"] /\ dstat' = [dstat EXCEPT ![j] = Status(Owner[j], j)]
+  /\ UNCHANGED <<files, ipc, cs, alive, obs, avail, cache, watching, pend, notify, reclaiming, wl>>
+
+(* the same in the two steps of aio_submit (scheduler/base.py l.589-593): the dependency is added to the token's
+   dependents -- from then on a notification re-checks it -- and checked a first time *)
+Waiting == {"submitted", "registered"}          \* registered with the token, not holding
+SubmitAdd(j) ==
+  /\ alive[Owner[j]] /\ jobst[j] = (IF AddFirst THEN "idle" ELSE "checked")
+  /\ jobst' = [jobst EXCEPT ![j] = IF AddFirst THEN "registered" ELSE "submitted"]
+  /\ UNCHANGED <<files, ipc, cs, alive, obs, avail, cache, watching, pend, dstat, notify, reclaiming, wl>>
+SubmitCheck(j) ==
+  /\ alive[Owner[j]] /\ jobst[j] = (IF AddFirst THEN "registered" ELSE "idle")
+  /\ jobst' = [jobst EXCEPT ![j] = IF AddFirst THEN "submitted" ELSE "checked"] /\ dstat' = [dstat EXCEPT ![j] = Status(Owner[j], j)]
   /\ UNCHANGED <<files, ipc, cs, alive, obs, avail, cache, watching, pend, notify, reclaiming, wl>>
 
 Lock(p, kind, j) ==
@@ -129,7 +143,7 @@ RelOk(p) ==
         /\ cache' = [cache EXCEPT ![p] = @ \ {j}]
         /\ jobst' = [jobst EXCEPT ![j] = "released"]
   /\ cs' = [cs EXCEPT ![p] = None] /\ ipc' = "free"
-  /\ notify' = [notify EXCEPT ![p] = @ \cup {k \in Jobs : Owner[k] = p /\ jobst[k] = "submitted"}]     \* aio_notify()
+  /\ notify' = [notify EXCEPT ![p] = @ \cup {k \in Jobs : Owner[k] = p /\ jobst[k] \in Waiting}]     \* aio_notify()
   /\ UNCHANGED <<files, pend, alive, obs, watching, dstat, reclaiming, wl>>
 
 (* aio_notify after a release / a deleted event: every waiting dependency of this process is re-checked *)
@@ -165,7 +179,7 @@ OnDeleted(p, j) ==
   /\ IF j \in cache[p]
      THEN /\ cache' = [cache EXCEPT ![p] = @ \ {j}] /\ avail' = [avail EXCEPT ![p] = @ + Req[j]]
           /\ notify' = IF avail[p] + Req[j] > 0
-                       THEN [notify EXCEPT ![p] = @ \cup {k \in Jobs : Owner[k] = p /\ jobst[k] = "submitted"}] ELSE notify
+                       THEN [notify EXCEPT ![p] = @ \cup {k \in Jobs : Owner[k] = p /\ jobst[k] \in Waiting}] ELSE notify
      ELSE UNCHANGED <<cache, avail, notify, reclaiming, wl>>
   /\ UNCHANGED <<files, ipc, cs, alive, obs, watching, jobst, dstat, reclaiming, wl>>
 
@@ -193,7 +207,7 @@ Kill(p) ==
   /\ UNCHANGED <<files, avail, cache, jobst, dstat, wl>>
 
 Next ==
-  \/ \E j \in Jobs : Submit(j) \/ JobStart(j) \/ JobEnd(j) \/ Abort(j)
+  \/ \E j \in Jobs : SubmitAdd(j) \/ SubmitCheck(j) \/ JobStart(j) \/ JobEnd(j) \/ Abort(j)
   \/ \E p \in Procs, j \in Jobs, k \in {"acq", "rel"} : Lock(p, k, j)
   \/ \E p \in Procs : Recount(p) \/ AcqFail(p) \/ CreateOpen(p) \/ CreateWrite(p) \/ AcqOk(p) \/ RelDelete(p) \/ RelOk(p) \/ Kill(p)
   \/ \E p \in Procs, j \in Jobs : Recheck(p, j) \/ OnDeleted(p, j) \/ ReclaimDecide(p, j) \/ ReclaimDelete(p, j)
@@ -213,6 +227,7 @@ ReclaimOnlyAfterEnd == [][\A j \in Jobs : (files[j] = "written" /\ files'[j] = "
 ObserversSurvive == \A p \in Procs : alive[p] => obs[p]
 (* C09: at quiescence, a waiting job whose request fits has been told so *)
 Quiescent == /\ \A p \in Procs : cs[p] = None /\ pend[p] = {} /\ notify[p] = {}
+             /\ \A j \in Jobs : jobst[j] \notin {"registered", "checked"}            \* no submission half-way
              /\ \A j \in Jobs : alive[Owner[j]] => jobst[j] \notin {"holding", "aborting", "running", "ended"}   \* live schedulers have released
              /\ \A p \in Procs, j \in Jobs : ~ENABLED ReclaimDecide(p, j) /\ j \notin reclaiming[p]
 Informed == Quiescent => \A j \in Jobs : (jobst[j] = "submitted" /\ alive[Owner[j]] /\ Req[j] <= Total - Sum(Holders)) => dstat[j] = "OK"
